@@ -41,6 +41,8 @@ var Check = &run.Check{
 		"one or more --no-ff merges of a topic branch with work on both sides; 1-5 authors with spaces/digits/non-ASCII, one author name being a prefix of another; subjects with [hex], brackets, colons, " +
 		"=>, the commit's own date, other dates, the author's name, numstat-/summary-looking words, conventional-commit prefixes, leading blanks/tab/U+3000, trailing U+00A0/U+2003 (git keeps them in %s); " +
 		"every 60th repository has one commit whose first message paragraph (= %s, one log line) is 70-100 KB) executed by the installed git with fixed dates and an empty configuration; " +
+		"every 240th case instead a linear history of 1003-1600 commits written with git fast-import (tiny blobs, create/modify/delete/exact rename, empty commits); " +
+		"every 3rd case, after the first report, an ancestor on the first-parent chain is checked out and `coca git` runs again in the same directory (the report must be valid JSON with exactly the shorter history); " +
 		"truth = git log --reverse -z --raw --numstat --format=%x01%h%x00%P%x00%aN%x00%ad%x00%s%x00 --date=short, cross-checked against git's own textual numstat; " +
 		"observed = coca_reporter/commits.json of `coca git` run in the repository AND git.BuildMessageByInput(text of the documented git log invocation); " +
 		"non-trivial = >= 3 listed commits, >= 1 rename pair reported by git and >= 1 of {merge, empty commit, binary file, deletion}; distinct = hash of the per-commit multiset of (status, rename notation shape, binary) + parents + subject kinds",
@@ -79,10 +81,23 @@ func runCase(c *run.Ctx, o *run.Outcome) {
 	// every 60th repository (2 in quick, 40 in thorough) carries one commit whose first message paragraph, i.e. its
 	// %s subject and therefore one line of the log, is 70-100 KB long
 	sc := gitgen.Generate(r.Fork(), gitgen.Opts{MinCommits: 3, MaxCommits: 25, MaxOps: 12, LongSubject: c.Index%60 == 7})
+	rerunRng := r.Fork()
 	repo := filepath.Join(c.Scratch(), "repo")
 	witness := map[string]interface{}{"script": sc}
 	o.Witness = witness
-	if err := gitgen.Build(sc, repo); err != nil {
+	// every 240th case (1 in quick, 10 in thorough) is a linear history of 1003-1600 commits written with git fast-import
+	big := c.Index%240 == 53
+	if big {
+		n := r.Range(1003, 1600)
+		sc = &gitgen.Script{}
+		witness = map[string]interface{}{"big_history": fmt.Sprintf("gitgen.BuildBig, %d commits (content is a function of property, seed and case index)", n)}
+		o.Witness = witness
+		o.Count("big_histories_over_1000_commits", 1)
+		if err := gitgen.BuildBig(r.Fork(), repo, n); err != nil {
+			o.SetInconclusive("generator: " + head(err.Error()))
+			return
+		}
+	} else if err := gitgen.Build(sc, repo); err != nil {
 		if _, ok := err.(*gitgen.ErrConflict); ok {
 			o.SetInconclusive("generator: merge conflict")
 		} else {
@@ -96,6 +111,10 @@ func runCase(c *run.Ctx, o *run.Outcome) {
 		return
 	}
 	witness["truth"] = clipTruth(truth)
+	if big {
+		witness["truth"] = "first and last 15 commits only"
+		witness["truth_first"], witness["truth_last"] = truth[:15], truth[len(truth)-15:]
+	}
 
 	// coverage
 	var shape []interface{}
@@ -178,7 +197,9 @@ func runCase(c *run.Ctx, o *run.Outcome) {
 		o.Violate("lib/panic@"+site, "BuildMessageByInput panicked: %s", val)
 	} else {
 		lib := toParsed(parsed)
-		witness["lib_observed"] = clipParsed(lib)
+		if !big {
+			witness["lib_observed"] = clipParsed(lib)
+		}
 		o.Count("lib_commits_observed", len(lib))
 		mm := gitgen.Compare(truth, lib)
 		if len(mm) == 0 {
@@ -206,7 +227,11 @@ func runCase(c *run.Ctx, o *run.Outcome) {
 			} else if err := json.Unmarshal(b, &cli); err != nil {
 				o.Violate("cli/output-unreadable", "commits.json is not a JSON list of commits: %v", err)
 			} else {
-				witness["cli_observed"] = clipParsed(cli)
+				if !big {
+					witness["cli_observed"] = clipParsed(cli)
+				} else if len(cli) > 30 {
+					witness["cli_observed_first"], witness["cli_observed_last"] = cli[:15], cli[len(cli)-15:]
+				}
 				o.Count("cli_commits_observed", len(cli))
 				mm := gitgen.Compare(truth, cli)
 				if len(mm) == 0 {
@@ -218,8 +243,74 @@ func runCase(c *run.Ctx, o *run.Outcome) {
 			}
 		}
 	}
-	if c.Index < 64 {
+	if c.CocaBin != "" && !big && c.Index%3 == 1 && o.Status != "inconclusive" {
+		rerunOnShorterHistory(c, o, repo, rerunRng, witness)
+	}
+	if c.Index < 64 && !big {
 		o.Sample = map[string]interface{}{"script_steps": len(sc.Steps), "truth": clipTruth(truth), "git_log_text": clip(text, 3000)}
+	}
+}
+
+// rerunOnShorterHistory: `coca git` has just written its report for HEAD; an ancestor on the first-parent chain is
+// checked out (a strictly shorter history) and `coca git` runs a second time IN THE SAME DIRECTORY. The report file
+// must then be valid JSON holding exactly the commits of the history now checked out - nothing of the earlier report.
+func rerunOnShorterHistory(c *run.Ctx, o *run.Outcome, repo string, r *run.Rand, witness map[string]interface{}) {
+	out, err := gitgen.Git(repo, nil, "rev-list", "--first-parent", "HEAD")
+	if err != nil {
+		return
+	}
+	revs := strings.Fields(out)
+	if len(revs) < 2 {
+		return
+	}
+	target := revs[1+r.Intn(len(revs)-1)]
+	report := filepath.Join(repo, "coca_reporter", "commits.json")
+	before, _ := ioutil.ReadFile(report)
+	if _, err := gitgen.Git(repo, nil, "checkout", "-q", "--detach", target); err != nil {
+		o.SetInconclusive("generator: checkout of an ancestor failed: " + head(err.Error()))
+		return
+	}
+	truth, err := gitgen.ReadTruth(repo)
+	if err != nil {
+		o.SetInconclusive("ground truth (second history): " + head(err.Error()))
+		return
+	}
+	o.Count("cli_rerun_cases", 1)
+	witness["rerun_checked_out"] = target
+	witness["rerun_truth"] = clipTruth(truth)
+	res := common.RunCLI(c.CocaBin, repo, gitgen.Env(repo), "git")
+	if res.TimedOut {
+		o.SetInconclusive("cli watchdog")
+		return
+	}
+	if res.ExitCode != 0 || strings.Contains(res.Stderr, "panic:") || strings.Contains(res.Stderr, "fatal error") {
+		o.Violate("cli-rerun/crash", "second `coca git` in the same directory: exit %d: %s", res.ExitCode, head(res.Stderr+" "+res.Stdout))
+		return
+	}
+	b, err := ioutil.ReadFile(report)
+	if err != nil {
+		o.Violate("cli-rerun/no-output", "second `coca git` left no coca_reporter/commits.json")
+		return
+	}
+	if len(b) < len(before) {
+		o.Count("cli_rerun_second_report_shorter", 1)
+	}
+	var cli []gitgen.Parsed
+	if err := json.Unmarshal(b, &cli); err != nil {
+		tail := string(b)
+		if len(tail) > 160 {
+			tail = "…" + tail[len(tail)-160:]
+		}
+		o.Violate("cli-rerun/output-unreadable", "after a second `coca git` run in the same directory (first report %d bytes, now %d bytes, history of %d commits checked out) commits.json is not a JSON list: %v; file ends with %q", len(before), len(b), len(truth), err, tail)
+		return
+	}
+	witness["rerun_cli_observed"] = clipParsed(cli)
+	mm := gitgen.Compare(truth, cli)
+	if len(mm) == 0 {
+		o.Count("cli_rerun_histories_matched", 1)
+	}
+	for _, m := range mm {
+		o.Violate("cli-rerun/"+m.Sig, "second `coca git` run in the same directory, commits.json: %s", m.Msg)
 	}
 }
 
